@@ -56,6 +56,9 @@ fn cases() -> Vec<CaseP> {
         (G::Conj(vec![G::Eq(x.clone(), y.clone()), G::Eq(y.clone(), T::I(7))]), 1),
         (G::Conj(vec![G::Eq(y.clone(), x.clone()), G::Eq(T::V(5), y.clone()), G::Eq(T::V(5), T::I(3))]), 1),
         (G::Conj(vec![G::Eq(x.clone(), y.clone()), G::Eq(y.clone(), T::list(vec![T::V(5), T::I(2)])), G::Eq(T::V(5), T::I(1))]), 1),
+        // a list whose head and tail are bound separately, after the list itself
+        (G::Conj(vec![G::Eq(x.clone(), T::cons(y.clone(), T::V(5))), G::Conde(vec![vec![G::Eq(y.clone(), T::I(1))], vec![G::Eq(y.clone(), T::I(2))]]), G::Eq(T::V(5), T::list(vec![y.clone(), T::I(4)]))]), 2),
+        (G::Conj(vec![G::Eq(x.clone(), T::list(vec![y.clone(), T::V(5)])), G::Eq(T::V(5), T::I(4)), G::Eq(y.clone(), T::I(3))]), 1),
     ];
     let bodies: Vec<Vec<G>> = vec![
         vec![G::Eq(q.clone(), x.clone())],
@@ -153,7 +156,7 @@ fn check(c: &CaseP, index: usize) -> (Vec<Violation>, &'static str) {
 }
 
 pub fn run(ctx: &mut Ctx) {
-    ctx.set("rule", json!("E3: 10 generators that reach the project goal with 1..4 states (bindings, conde of 2-4 arms, nested conde, a partially bound list completed per branch, a generator behind a closure, a binary Disj reaching it twice with the same value, the projected variable aliased to another variable whose value arrives later - directly, through a chain, as a list) x 7 bodies (q == x; q == [x, x]; an fngoal that inspects the projected term structurally; the read delayed behind a closure; a conde of reads; a branching body whose read is delayed; doubly delayed) x 7 nestings (directly after the generator, below a fresh clause, in a conde arm next to a failing arm, generator and project inside one arm; and with the project goal behind a closure - the form every relation written as a function has - directly, below fresh, and with the generator inside an outer closure: there the goal is rebuilt for every entering state, so every one of the 2..4 states must see its own value). Oracle: for ground values `project |x| { body }` has the answers of `body`; no panic. distinct_nontrivial = cases whose project goal is reached by >= 2 states."));
+    ctx.set("rule", json!("E3: 12 generators that reach the project goal with 1..4 states (bindings, conde of 2-4 arms, nested conde, a partially bound list completed per branch, a generator behind a closure, a binary Disj reaching it twice with the same value, the projected variable aliased to another variable whose value arrives later - directly, through a chain, as a list; lists whose head / elements and tail are bound separately afterwards) x 7 bodies (q == x; q == [x, x]; an fngoal that inspects the projected term structurally; the read delayed behind a closure; a conde of reads; a branching body whose read is delayed; doubly delayed) x 7 nestings (directly after the generator, below a fresh clause, in a conde arm next to a failing arm, generator and project inside one arm; and with the project goal behind a closure - the form every relation written as a function has - directly, below fresh, and with the generator inside an outer closure: there the goal is rebuilt for every entering state, so every one of the 2..4 states must see its own value). Oracle: for ground values `project |x| { body }` has the answers of `body`; no panic. distinct_nontrivial = cases whose project goal is reached by >= 2 states."));
     let cs = cases();
     let sel: Vec<usize> = match &ctx.replay {
         Some(r) if r.family == "c11" => vec![r.index],
